@@ -89,3 +89,11 @@ CHECKS["C16"] = dict(
     design_ref="DESIGN.md section 3 C16",
     note="API coverage of the op table versus cubed.__all__ is reported in the evidence. Inputs opened with from_zarr live in a separate store whose metadata may be read.",
 )
+
+CHECKS["C04"] = dict(
+    level="exploration",
+    technique="property-based boundary testing: thresholds (projected_mem of every op of the unoptimized and optimized plan) are collected under a generous budget, then the same generated program is rebuilt with allowed_mem = t-1, t, t+1; admission model (refuse iff max projected > allowed) plus side-effect observation (recording executor, callbacks, store trace, work_dir) and wrapped fuse/fuse_multiple calls",
+    text="Each case sits within +-1 of an admission threshold of its own plan, under a drawn optimizer, entry point (compute, Array.compute, store, to_zarr), executor and storage set-up. The call must raise the memory error iff the final plan's maximum projected memory exceeds allowed_mem, and a refusal must have entered no executor, fired no callback and written nothing (intermediate store, target store, work_dir). Non-forcing optimizers must not push a fitting plan over budget; every fusion call must report at least the projected memory of each operation it replaced.",
+    design_ref="DESIGN.md section 3 C04",
+    note="projected_mem values are taken from the plan (their truth is C03's subject). A rechunk-planner refusal at build time counts as refused before running.",
+)
